@@ -5,6 +5,7 @@ Sch(kind, every, align, p, r, period, offset, gbLen, gbOff, ag) ==
     [kind |-> kind, every |-> every, align |-> align, p |-> p, r |-> r, period |-> period,
      offset |-> offset, gbLen |-> gbLen, gbOff |-> gbOff, alignGroup |-> ag]
 
+MCUserTimesQ == { [op |-> "ge", v |-> 15] }
 MCUserTimes == { [op |-> "ge", v |-> 15], [op |-> "lt", v |-> 15] }
 MCUserTimesT == { [op |-> "ge", v |-> 15], [op |-> "lt", v |-> 15], [op |-> "gt", v |-> 10], [op |-> "le", v |-> 20] }
 MCTimeChoices == { <<10, 20>>, <<30, 37>> }
